@@ -200,7 +200,7 @@ Lemma shape_message_empty_refuted :
     cw c = 0 /\ shape_msg false false fmt (Some c) = Some (oc', bytes) /\
     Z.of_nat (length bytes) <> 12 + rfb_cursor_payload_len false (bpp fmt) (cw c) (ch c).
 Proof.
-  exists fmt32, (mkcur 0 2 0 1 None [] None None false (65535, 0, 0) (0, 0, 65535)).
+  exists fmt32, (mkcur 0 2 0 1 None [] None None false (65535, 0, 0) (0, 0, 65535) false).
   eexists. eexists. split; [reflexivity|]. split; [vm_compute; reflexivity|]. vm_compute. discriminate.
 Qed.
 
